@@ -4,7 +4,7 @@ import pickle
 
 from hypothesis import strategies as st
 
-from vlib.core import Outcome, Sub, HarnessError, is_known, expand_ops, REPEATS
+from vlib.core import poison, Outcome, Sub, HarnessError, is_known, expand_ops, REPEATS
 
 from boltons import dictutils
 from boltons.dictutils import OrderedMultiDict
@@ -197,6 +197,7 @@ def compare_reads(omd, m, cls, out, opname):
             return bad(name, r[1], exp)
         if name in ('keys()', 'iter', 'keys(multi=True)') and repr(r[1]) != repr(exp):
             return bad(name + ' (key objects)', r[1], exp)
+        poison(r[1])        # the caller owns what a read returned: changing it must not show up in any later read
     # per-key reads over the whole pool
     sentinel = ('dflt',)
     for k in KEYS:
@@ -215,6 +216,8 @@ def compare_reads(omd, m, cls, out, opname):
                 return bad('%s[%r]' % (name, k), 'raises %s(%s)' % (r[1], r[2]), exp)
             if r[1] != exp:
                 return bad('%s[%r]' % (name, k), r[1], exp)
+            if name.startswith('getlist') and r[1] is not sentinel:
+                poison(r[1])    # (get / [] hand out the stored value objects themselves: those are the caller's anyway)
         r = _call(lambda: omd[k])
         if present:
             if r[0] != 'ok' or r[1] != exp_list[-1]:
@@ -281,6 +284,13 @@ def compare_reads(omd, m, cls, out, opname):
     d4 = dict(plain)
     d4['extra-key'] = 1
     eqs.append(('== dict with one key more', d4, False))
+    # an instance of a subclass of the class under test is an OMD too: same answers, whichever side it is on
+    sub_cls = _SUBCLASSES.get(cls)
+    if sub_cls is None:
+        sub_cls = _SUBCLASSES[cls] = type('Sub' + cls.__name__, (cls,), {})
+    for name, other, exp in list(eqs):
+        if isinstance(other, OrderedMultiDict):
+            eqs.append((name.replace('OMD', 'subclass instance'), sub_cls(other.items(multi=True)), exp))
     for name, other, exp in eqs:
         r = _call(lambda: omd == other)
         if r[0] != 'ok' or r[1] is not exp:
@@ -288,7 +298,14 @@ def compare_reads(omd, m, cls, out, opname):
         r = _call(lambda: omd != other)
         if r[0] != 'ok' or r[1] is not (not exp):
             return bad(name.replace('==', '!='), r, not exp)
+        if isinstance(other, OrderedMultiDict):
+            r = _call(lambda: other == omd)
+            if r[0] != 'ok' or r[1] is not exp:
+                return bad(name + ' (reflected)', r, exp)
     return True
+
+
+_SUBCLASSES = {}
 
 
 # ---------------------------------------------------------------------------
